@@ -33,3 +33,13 @@ func (chain *Blockchain) VerifFilterTxs(appState *appstate.AppState, txs []*type
 	res, _, _, _, _ := chain.filterTxs(appState, txs, header)
 	return res
 }
+
+// VerifProcessTxs runs the validator's strict transaction processing on an explicit check state.
+func (chain *Blockchain) VerifProcessTxs(appState *appstate.AppState, txs []*types.Transaction, header *types.Header) (types.TxReceipts, error) {
+	_, _, receipts, _, _, err := chain.processTxs(txs, &txsExecutionContext{appState: appState, header: header})
+	return receipts, err
+}
+
+func VerifCalculateTxBloom(block *types.Block, receipts types.TxReceipts) []byte {
+	return calculateTxBloom(block, receipts)
+}
